@@ -100,9 +100,10 @@ CLAIMS = {
         "error is reported and nothing is flushed. Operation level (C03o.lean): for every payload, segmentation, well-formed reply "
         "texts and all four methods, download_file / get_file_list in a session that is in step return exactly the three replies, the "
         "sink / the returned text holds exactly the payload (dlSpec for ASCII), flushed once, no descriptor left, session in step "
-        "again. Correspondence: real ftp::client (in-memory control channel, real loopback data "
+        "again. TLS layer (C03t.lean): the same for downloadT on a protected session after a successful data handshake, with no "
+        "payload event before the handshake. Correspondence: real ftp::client (in-memory control channel, real loopback data "
         "connections to a scripted peer) x payload sizes around the 8192-byte block x four methods x IPv4/IPv6, listings included.",
-   note="TCP delivery itself is trusted; TLS data connections are covered by the C11 stage.", ref="DESIGN.md section 7 C03"),
+   note="TCP delivery itself is trusted; TLS data connections are exercised by the e2e stage.", ref="DESIGN.md section 7 C03"),
  "C04": dict(
    text="Theorems for every payload and every short-read pattern of the source: the bytes written to the data connection are exactly the "
         "source bytes (ASCII: ulSpec), blocks never exceed 8192 bytes, the data socket is shut down and closed before the completion reply "
